@@ -136,6 +136,10 @@ def run(ctx):
     stale_filter_hashes(ctx)
     # reviewed reference of the storage functions' durable writes (engine/census.py)
     from rules import census_fns
+    # r5 (F40): the scan of a script's tx records selects by starts_with(prefix of the exact script); keys of scripts whose args
+    # extend / are extended by these args are interleaved and must be skipped (exact key length), not parsed with shifted offsets
+    from rules.C13 import key_length_filters
+    key_length_filters(ctx, 'C04.r5', 'Storage::rollback_to_block', 17, exact=True)
     census_fns.run(ctx, 'C04')
 
 
